@@ -130,6 +130,7 @@ class Gen:
         out += b"%PDF-1." + (b"5" if form != "table" else b"4") + b"\n%\xe2\xe3\xcf\xd3\n"
         sections = []           # abstract sections, oldest first: {"table": [(num, entry)], "stm": [...]}
         meta = {"form": form, "junk": len(junk), "updates": 0, "npages": npages}
+        self.chain = False
         gens = {n: 0 for n in objs}
         live = dict(objs)
         freed = {}
@@ -160,9 +161,19 @@ class Gen:
             d = {b"Type": N("ObjStm"), b"N": len(members), b"First": len(header)}
             if extends is not None:
                 d[b"Extends"] = Ref(extends)
-            if rng.random() < 0.5:
+            r = rng.random()
+            if r < 0.4:
                 data = zlib.compress(data)
                 d[b"Filter"] = N("FlateDecode")
+            elif r < 0.55:
+                # filter chain whose parameter array is not symmetric (7.4.1: the i-th parameter belongs to the i-th filter)
+                cols = rng.choice([1, 5, 16])
+                data = data + b" " * (-len(data) % cols)
+                enc = b"".join(b"\x00" + data[i:i + cols] for i in range(0, len(data), cols))
+                data = zlib.compress(enc).hex().encode() + b">"
+                d[b"Filter"] = [N("ASCIIHexDecode"), N("FlateDecode")]
+                d[b"DecodeParms"] = [None, {b"Predictor": 12, b"Columns": cols}]
+                self.chain = True
             return emit_obj(num, 0, Stream(d, data))
 
         def write_section(entries, size, prev, kind, xrefstm_entries=None, root=Ref(1)):
@@ -300,6 +311,7 @@ class Gen:
         data = junk + bytes(out)
         meta["sections"] = sections
         meta["size"] = nxt
+        meta["chain"] = self.chain
         return data, live, freed, meta
 
     def _xref_stream(self, out, snum, entries, size, prev, root, standalone):
@@ -347,6 +359,20 @@ class Gen:
         elif r < 0.6:
             data = zlib.compress(data)
             d[b"Filter"] = N("FlateDecode")
+        elif r < 0.72:
+            # the same predictor behind an ASCIIHexDecode stage: parameters [null, parms]
+            cols = w0 + w1 + w2
+            rows = [data[i:i + cols] for i in range(0, len(data), cols)]
+            prevrow = bytes(cols)
+            enc = bytearray()
+            for row in rows:
+                enc.append(2)
+                enc += bytes((a - b) & 255 for a, b in zip(row, prevrow))
+                prevrow = row
+            data = zlib.compress(bytes(enc)).hex().encode() + b">"
+            d[b"Filter"] = [N("ASCIIHexDecode"), N("FlateDecode")]
+            d[b"DecodeParms"] = [None, {b"Predictor": 12, b"Columns": cols}]
+            self.chain = True
         d[b"Length"] = len(data)
         out.extend(b"%d 0 obj\n" % snum + pdfgen.ser(d, None, self.sp) + b"\nstream\n" + data + b"\nendstream\nendobj\n")
 
@@ -418,8 +444,10 @@ def run_part(chk):
     sr = filecheck.strict_read([f[0] for f in files])
     spec_bad = []
     for (p, live, freed, meta, n), r in zip(files, sr):
-        if meta["junk"]:
-            continue                       # the strict reader starts at offset 0; junk-prefixed files are judged through qpdf only
+        if meta["junk"] or meta.get("chain"):
+            # the strict reader starts at offset 0 and decodes structural streams with FlateDecode (+ PNG predictor) only:
+            # junk-prefixed files and files whose xref/object streams use a filter chain are judged through qpdf only
+            continue
         if not r["ok"]:
             spec_bad.append({"file": p, "strict_reader": r, "form": meta["form"]})
             continue
